@@ -2,6 +2,7 @@
 import vlib, corpus
 import fontbuild
 import _pipeline as P
+import _lattice as L
 
 MODULE = "RbModel.Props.C16"
 LEVEL = "proof"
@@ -545,6 +546,33 @@ def macroman_search(ctx, shim):
     ctx.note_search("macroman", 128, 128, rule="the 128 entries of UNICODE_TO_MACROMAN against python's mac_roman codec")
 
 
+# ----------------------------------------------------------------------------------------------
+# every shaper, every normalization mode: a character the font maps keeps its own glyph (C16_mapped_character_own_glyph)
+
+def lattice_keep(env):
+    def keep(c, S, text, tag):
+        # the cases in which the own-glyph oracle speaks about c itself: c is mapped, not a mark, and the mode of the
+        # script's shaper does not prefer its decomposition
+        if c not in S or L.is_mark(c):
+            return False
+        i = text.index(c)
+        return not L.prefers_decomposition(env.mode(tag), text, i, S)
+    return keep
+
+
+LATTICE_RULE = ("font support lattice (tools/props/_lattice.py): every character with a canonical decomposition (key families "
+                "exhaustively, the Latin / Greek / CJK bulk sampled in quick) and every visible character of General Punctuation, "
+                "every space separator, one letter per script x cmap-only fonts for every subset of {c, the halves and inner "
+                "pieces of its decomposition, U+0020, U+2010, U+2011, U+25CC} in which c is mapped x one script per shaper "
+                "(default, arabic, hebrew, thai, hangul, indic, khmer, myanmar, use; dispatch read from the compiled crate) and "
+                "the script of c's block x {c, c + mark, base + c, base + c + mark, unmapped + c, unmapped + c + mark} x the script's "
+                "own direction / top-to-bottom; kept: the cases where the shaper's "
+                "normalization mode does not prefer the decomposition of c (it short-circuits, or the font supports no "
+                "candidate); oracle: every non-mark, non-default-ignorable mapped character whose decomposition is not "
+                "preferred appears as its cmap glyph with the glyph's hmtx advance and zero offsets (vertical: y_advance "
+                "-(ascender - descender), offsets (-advance / 2, -ascender))")
+
+
 def run(ctx):
     ctx.assumptions += [
         "the theorems are about the Lean model RbModel/Pipeline.lean (default shaper, font without layout tables, "
@@ -557,6 +585,10 @@ def run(ctx):
         "to the crate by C07's gpos-apply-device correspondence); kerning, tracking, cursive, mark attachment and stch are "
         "covered by the axis / 16-bit monitors on the implementation: over generated GPOS / kern / kerx fonts with live Device "
         "and VariationIndex tables (axis-gid16-gpos) and over the repository corpus",
+        "C16_mapped_character_own_glyph / _run_own_glyphs / _single_every_mode / _nb_hyphen_own_glyph are about RbModel/Norm.lean "
+        "(decompose_current_character and the first normalization round in all five modes), tied to the crate by the "
+        "norm-run-mapped stream (hook verif::normalize::normalize_vs); which mode each shaper asks for is not read from "
+        "the crate but stated by the support-lattice oracle (tools/props/_lattice.py MODE) and tested through shape()",
         "glyph_v_origin is modelled for VORG, glyf bounding boxes (with and without vmtx) and the ascender fallback; CFF / bitmap / COLR extents, variable-font advances, "
         "kerx, fallback mark positioning with extents are not modelled",
     ]
@@ -575,6 +607,15 @@ def run(ctx):
     import C07
     ctx.correspond("gpos-apply-device", lines=C07.subd_lines(ctx.rng("subd"), ctx.budget(1500, 60000)),
                    classify=C07.classify_subd, canon=C07.canon)
+    # C16_mapped_character_own_glyph & co. are statements about Norm.lean (every normalization mode): their tie to the
+    # crate is C09's norm-run protocol on requests about mapped characters; a disagreement is promoted into shape() inputs
+    env = L.Env(shim)
+    import C09
+    dis = ctx.correspond("norm-run-mapped", lines=L.lattice_run_lines(ctx.rng("norm-mapped"), ctx.budget(6000, 150000), 2),
+                         classify=C09.classify_run)
+    L.promote_norm_run(ctx, shim, env, dis, ctx.budget(40, 300), [L.judge_own_glyph_p], "norm-run-mapped")
+    L.search(ctx, shim, env, ctx.rng("lattice"), ("decomposable", "plain"), lattice_keep(env), [L.judge_own_glyph],
+             LATTICE_RULE, dirs=("-", "t"))
     macroman_search(ctx, shim)
     default_search(ctx, shim, chars, ctx.rng("default"), ctx.budget(500, 40000))
     cmap_family_search(ctx, shim, chars, ctx.rng("cmapfamsearch"), ctx.budget(250, 12000))
@@ -584,6 +625,10 @@ def run(ctx):
 
 def replay(ctx, rp):
     shim = vlib.build_harness()
+    if rp.get("stream") == L.STREAM:
+        return L.replay(shim, rp, [L.judge_own_glyph])
+    if rp.get("stream") == L.PROMOTED:
+        return L.replay_promoted(shim, rp, [L.judge_own_glyph_p])
     if rp.get("stream") == "macroman":
         got = [int(x) for x in vlib.run_lines(shim, ["pl mactable"], nproc=1)[0].split()]
         i = rp["byte"] - 0x80
